@@ -352,12 +352,12 @@ def main(tier, seed):
     for r in pmap(work, specs):
         rep.merge_worker("epr", r)
     rep.section("epr", None, scenarios=len(specs))
-    ex = Explorer()
+    ex = Explorer(max_paths=3000, budget_s=90)
     ex.run(body_keep({"kind": "keep", "variant": "recv_keep", "hw": "generic", "n_other": 0, "number": 1}, falsify=True))
     rep.witness("pair correction with falsified oracle", any(c.label == "pair_correction" for c in ex.cexs))
 
     def one():
-        Explorer().run(body_keep({"kind": "keep", "variant": "recv_keep", "hw": "nv", "n_other": 1, "number": 2}))
-        Explorer().run(body_recv_measure({"kind": "measure", "role": "recv", "number": 2}))
+        Explorer(max_paths=4, budget_s=30).run(body_keep({"kind": "keep", "variant": "recv_keep", "hw": "nv", "n_other": 1, "number": 2}))
+        Explorer(max_paths=4, budget_s=30).run(body_recv_measure({"kind": "measure", "role": "recv", "number": 2}))
     rep.functions_encoded |= trace_functions(one)
     return rep.finish(replay)
